@@ -33,6 +33,8 @@ def decode(pk, wire, schema):
     from ndn import encoding as enc
     from ndn.app_support.security_v2 import parse_certificate
     f2a = kit.field_to_abstract
+    ptr = {'dvb': kit.NONE, 'scn': {'k': 'list', 'items': []}, 'scr': [], 'dcr': []}
+    wire = bytearray(wire)          # writable, so that the offsets of the returned memoryviews can be read back
     try:
         if pk == 'interest':
             res = enc.parse_interest(wire)
@@ -45,7 +47,7 @@ def decode(pk, wire, schema):
         else:
             res = enc.Name.from_bytes(wire)
     except Exception as ex:  # noqa
-        return ('reject' if kit.exc_class(ex) == 'documented' else 'error:' + type(ex).__name__), []
+        return ('reject' if kit.exc_class(ex) == 'documented' else 'error:' + type(ex).__name__), [], ptr
     # projection of what was returned; a result of an unexpected shape is reported as such, not as a driver error
     try:
         if pk == 'interest':
@@ -55,17 +57,64 @@ def decode(pk, wire, schema):
                    ({'k': 'model', 'v': [{'k': 'list', 'items': [f2a(schema[0], n, None) for n in fh]}]} if fh else kit.NONE),
                    f2a(schema[4], par.nonce, None), f2a(schema[5], par.lifetime, None), f2a(schema[6], par.hop_limit, None),
                    f2a(schema[7], app, None), f2a(schema[8], sig.signature_info, None), f2a(schema[9], sig.signature_value_buf, None)]
+            cov = list(sig.signature_covered_part or [])
+            has_range = sig.signature_value_buf is not None and len(cov) > 0
+            ptr = {'dvb': f2a(schema[7], sig.digest_value_buf, None),
+                   'scn': {'k': 'list', 'items': [kit.comp_abstract(c) for c in (cov[:-1] if has_range else cov)]},
+                   'scr': elem_range(wire, cov[-1]) if has_range else [],
+                   'dcr': elem_range(wire, sig.digest_covered_part[0]) if sig.digest_covered_part else []}
         elif pk == 'data':
             name, meta, content, sig = res
             out = [f2a(schema[0], name, None), f2a(schema[1], meta, None), f2a(schema[2], content, None),
                    f2a(schema[3], sig.signature_info, None), f2a(schema[4], sig.signature_value_buf, None)]
+            cov = list(sig.signature_covered_part or [])
+            ptr['scr'] = elem_range(wire, cov[-1]) if sig.signature_value_buf is not None and cov else []
         elif pk in ('cert', 'lp'):
             out = kit.to_abstract(schema, res)
         else:
             out = [kit.comp_abstract(c) for c in res]
     except Exception as ex:  # noqa
         out = [{'k': 'unprojectable-result', 'exc': type(ex).__name__}]
-    return 'accept', out
+    return 'accept', out, ptr
+
+
+def elem_range(wire, buf):
+    """element range code of a returned buffer (see TlvModelPackets.Ptrs): [] none, [0, 0] empty, [a, b] = the
+    top-level elements a .. b-1 of the packet value, [9999, 9999] not aligned on element boundaries / not a view"""
+    import ctypes
+    if buf is None:
+        return []
+    if len(buf) == 0:
+        return [0, 0]
+    try:
+        base = ctypes.addressof(ctypes.c_char.from_buffer(wire))
+        start = ctypes.addressof(ctypes.c_char.from_buffer(buf)) - base
+    except (TypeError, ValueError):
+        return [9999, 9999]
+    end = start + len(buf)
+    _, s1 = stl.parse_var(wire, 0, None, shortest=False)
+    _, s2 = stl.parse_var(wire, s1, None, shortest=False)
+    offs, off = [], s1 + s2
+    try:
+        while off < len(wire):
+            offs.append(off)
+            t, a = stl.parse_var(wire, off, None, shortest=False)
+            ln, b = stl.parse_var(wire, off + a, None, shortest=False)
+            off += a + b + ln
+    except stl.TlvError:
+        pass
+    offs.append(len(wire))
+    if start in offs and end in offs:
+        return [offs.index(start) + 1, offs.index(end) + 1]
+    return [9999, 9999]
+
+
+def ptrs_ok(e, g):
+    """same rule as PtrsOk in TlvModelPackets.tla (e = TLC's expectation, g = observed)"""
+    un = {'k': 'unspecified'}
+    return (e['dvb'] == un or e['dvb'] == g['dvb']) and (e['scn'] == un or e['scn'] == g['scn']) and \
+        (e['scr'] == [] or e['scr'] == g['scr'] or (e['scr'][0] == e['scr'][1] and g['scr'] == [0, 0])) and \
+        (e['dcr'] == [] or e['dcr'] == g['dcr'])
 
 
 def norm_expected(pk, out):
@@ -120,7 +169,7 @@ def run_machine(ctx, tag, maxlen, lvl, pks, workers):
             txt = ' '.join(buf)
             if txt.count('<<') == txt.count('>>'):
                 v = tlaval.parse(txt)
-                seqs.append((v[1], list(v[2]), v[3], v[4], [tuple(x) for x in v[5]]))
+                seqs.append((v[1], list(v[2]), v[3], v[4], [tuple(x) for x in v[5]], tlaval.to_json(v[6])))
                 buf = None
     # every terminal state must have been emitted and parsed: one per initial state (= per sequence)
     import re
@@ -134,7 +183,7 @@ def run_machine(ctx, tag, maxlen, lvl, pks, workers):
 
 def replay_sequences(ctx, table, seqs, seen):
     n = 0
-    for pk, w, verdict, why, taken in seqs:
+    for pk, w, verdict, why, taken, eptr in seqs:
         key = (pk, tuple(w), len(table[pk]['letters']))
         if key in seen:
             continue
@@ -155,7 +204,7 @@ def replay_sequences(ctx, table, seqs, seen):
         oc, tree = classify(pk, wire, dschema, kit.unlimbs(T['outer']))
         if oc != 'ok' or tree != full:
             raise tlc.MachineryError('strict reader/writer disagree on %s %s: %s' % (seq_pk, w, oc))
-        got, out = decode(pk, wire, dschema)
+        got, out, ptr = decode(pk, wire, dschema)
         n += 1
         if verdict == 'accept':
             if pk == 'name':
@@ -180,6 +229,9 @@ def replay_sequences(ctx, table, seqs, seen):
                           '%s(%s): reference %s%s, implementation %s' % (FN[pk], wire.hex(), verdict, ' (%s)' % why if why else '', got), rep)
         elif verdict == 'accept' and out != exp:
             ctx.violation('C07/%s/accept/fields-differ' % FN[pk], '%s(%s): extracted fields differ from the strict reading' % (FN[pk], wire.hex()), rep)
+        elif verdict == 'accept' and not fr['parent'] and not ptrs_ok(eptr, ptr):
+            ctx.violation('C07/%s/accept/pointers-differ' % FN[pk],
+                          '%s(%s): SignaturePtrs %s differ from the strict reading %s' % (FN[pk], wire.hex(), json.dumps(ptr), json.dumps(eptr)), rep)
         if len(w) >= 3 or why:
             ctx.nt(['B', seq_pk, w])
     return n
@@ -205,6 +257,8 @@ def hand_corpus():
                                                (10, b'\x00\x00\x00\x09'), (12, b'\x0f\xa0'), (34, b'\x20'), (36, b'pp'),
                                                (44, [(27, b'\x03'), kl, (38, b'\x00\x00\x00\x01'), (40, b'\x02'), (42, b'\x03')]),
                                                (46, b'\x07' * 8)])])))
+    out.append(('interest', stl.write_tlv([(5, [(7, [(8, b'test'), (2, b'\xee' * 32), (8, b'ndn')]), (10, b'\x00\x00\x00\x02'), (36, b'\x01\x02'),
+                                               (44, [(27, b'\x00')]), (46, b'\x09' * 32)])])))
     out.append(('lp', stl.write_tlv([(100, [(98, b'\x01\x02'), (800, [(801, b'\x96')]), (812, b'\x01\x00'), (832, b'\x01'),
                                             (80, b'\x05\x03\x07\x01\x00')])])))
     return out
@@ -512,18 +566,18 @@ def _run(ctx):
                     continue
                 seen.add((pk, w))
                 oc, tree = classify(pk, w, T['schema'], outer_t)
-                got, out = decode(pk, w, T['schema'])
-                recs.append({'id': len(recs) + 1, 'pk': pk, 'outer': oc, 'input': tree, 'got': got, 'out': out, 'wire': w.hex()})
+                got, out, ptr = decode(pk, w, T['schema'])
+                recs.append({'id': len(recs) + 1, 'pk': pk, 'outer': oc, 'input': tree, 'got': got, 'out': out, 'ptr': ptr, 'wire': w.hex()})
                 stats[(pk, oc)] = stats.get((pk, oc), 0) + 1
                 if oc == 'ok':
                     ctx.nt(['C', pk, w.hex()])
         ctx.note('C: %d inputs (%s)' % (len(recs), ', '.join('%s/%s=%d' % (a, b, n) for (a, b), n in sorted(stats.items()))))
-        verdicts = judge(ctx, [{k: r[k] for k in ('id', 'pk', 'outer', 'input', 'got', 'out')} for r in recs], 'c07-judge-%s' % ctx.tier)
+        verdicts = judge(ctx, [{k: r[k] for k in ('id', 'pk', 'outer', 'input', 'got', 'out', 'ptr')} for r in recs], 'c07-judge-%s' % ctx.tier)
         for rid, tags in verdicts.items():
             r = recs[rid - 1]
             want, rest = tags[0].split('/', 1)
             why, got = rest.rsplit('/', 1)
-            sig = 'C07/%s/accept/fields-differ' % FN[r['pk']] if why == 'fields-differ' else \
+            sig = 'C07/%s/accept/%s' % (FN[r['pk']], why) if why in ('fields-differ', 'pointers-differ') else \
                 'C07/%s/%s%s/%s' % (FN[r['pk']], want, ':' + why if why else '', got)
             ctx.violation(sig, '%s(%s): reference %s%s, implementation %s' % (FN[r['pk']], r['wire'][:200], want, ' (%s)' % why if why else '', got),
                           {'kind': 'wire', 'pk': r['pk'], 'wire': r['wire']})
@@ -543,8 +597,8 @@ def replay(ctx, path):
     pk, wire = obj['pk'], bytes.fromhex(obj['wire'])
     T = table[pk]
     oc, tree = classify(pk, wire, T['schema'], kit.unlimbs(T['outer']))
-    got, out = decode(pk, wire, T['schema'])
+    got, out, ptr = decode(pk, wire, T['schema'])
     print('%s(%s) -> %s; strict reader: outer=%s' % (FN[pk], obj['wire'][:200], got, oc))
-    v = judge(ctx, [{'id': 1, 'pk': pk, 'outer': oc, 'input': tree, 'got': got, 'out': out}], 'c07-replay')
+    v = judge(ctx, [{'id': 1, 'pk': pk, 'outer': oc, 'input': tree, 'got': got, 'out': out, 'ptr': ptr}], 'c07-replay')
     print('judge:', v.get(1, 'conforms'))
     return 1 if v else 0
